@@ -59,6 +59,17 @@ def classify(evs):
             continue
         c = ev.case
         todo = [p for p, t in ev.extra.items() if t is None]
+        if todo and c.get('circ_records'):
+            # D14b-lookbehind on a circle (e.g. trypsin's (?<=W)K(?=P))
+            soft = [False] * len(todo)
+            for tx_id in sorted(set(r['tx'] for r in c['circ_records'])):
+                for ck in CG2.circ_inputs(c, tx_id, ev.run, CG.proteome(c['world'])):
+                    o = O.call('cv_circ_realizable_relaxed2', [ck, todo])
+                    soft = [a or bool(b) for a, b in zip(soft, o)]
+            for p, h in zip(todo, soft):
+                if h:
+                    ev.extra[p] = F_LOOKBEHIND
+            todo = [p for p in todo if ev.extra[p] is None]
         fine = todo[:25]                 # bound the oracle work of the fine tier
         if not todo or not c.get('as_records'):
             continue
